@@ -37,6 +37,7 @@ pub fn binary_profile(max_nodes: usize) -> ForestProfile {
         exclude_unknown_types: vec![rbx_types::VariantType::Attributes],
         multi_spelling: false,
         non_serializing: true,
+        narrow_numbers: true,
     }
 }
 
@@ -285,6 +286,12 @@ pub fn large_forest(c: &LargeCase) -> GForest {
                 "SharedString" => ("ZzLarge", "Shared", GVal::SharedString((0..*n).map(|i| (i * 7 % 253) as u8).collect()), GVal::SharedString(vec![1, 2, 3])),
                 "NumberSequence" => ("ZzLarge", "Seq", super::c14::long_value(kind, *n), GVal::NumberSequence(vec![[0, 0, 0], [1f32.to_bits(), 0, 0]])),
                 "ColorSequence" => ("ZzLarge", "Colors", super::c14::long_value(kind, *n), GVal::ColorSequence(vec![(0, [0, 0, 0]), (1f32.to_bits(), [0, 0, 0])])),
+                "AttributeName" => (
+                    "Folder",
+                    "Attributes",
+                    GVal::Attributes(vec![((0..*n).map(|i| (b'a' + (i % 26) as u8) as char).collect(), GVal::Bool(true)), ("z".into(), GVal::Float64(2.5f64.to_bits()))]),
+                    GVal::Attributes(vec![("short".into(), GVal::Bool(false))]),
+                ),
                 "ContentId" => ("ZzLarge", "Link", GVal::ContentId(format!("rbxasset://{}", "x".repeat(*n))), GVal::ContentId("rbxassetid://1".into())),
                 "ContentUri" => (
                     "ZzLarge",
@@ -520,6 +527,9 @@ pub fn run(ctx: &Ctx) -> PropertyReport {
             for n in super::c14::LONG_LENGTHS {
                 cases.push(LargeCase::LongValue { kind: kind.to_string(), n: *n });
             }
+        }
+        for n in [64usize, 100, 101, 128, 255, 256, 300, 4096, 70_000] {
+            cases.push(LargeCase::LongValue { kind: "AttributeName".into(), n });
         }
         cases.push(LargeCase::LongValue { kind: "BinaryString".into(), n: 1_100_000 });
         // one chunk of more than 2^24 incompressible bytes (32-bit length arithmetic)
